@@ -164,6 +164,48 @@ class ShapeInfer:
         return out
 
 
+def exec_shapes(repo, gen_name):
+    """shape of what a generator returns, by interpreting it at three model sizes (nS, nP, nE); -> set of symbolic (rows, cols) or empty"""
+    from ..core.algebra import Undecided
+    from ..core.symarr import SymArr
+    sizes = [(2, 3, 2), (3, 2, 3), (4, 4, 1)]
+    got = []
+    try:
+        from . import buildx as BX
+        if gen_name in BX.BUILDERS:
+            cls = M.sim_class(repo)
+            S = ["S0", "S1", "S2", "S3"]
+            for nS, nP, nE in sizes:
+                evs = [("r%d" % e, [("T", S[e % nS], S[(e + 1) % nS], "m%d" % e)] if nS > 1 else [("D", S[0], None, "m%d" % e)]) for e in range(nE)]
+                d = BX.Definition("size", S[:nS], evs)
+                fn, kind, out, me = BX.run_builder(repo, cls, gen_name, d)
+                if kind != "return" or not isinstance(out, SymArr):
+                    return set()
+                got.append(out.shape if out.ndim == 2 else (out.shape[0], 1))
+        else:
+            from ..checks import C03
+            for nS, nP, nE in sizes:
+                w = C03.BWorld(repo, nS, nP, nE)
+                fn, kind, out, me = w.run(gen_name)
+                if kind != "return" or not isinstance(out, SymArr):
+                    return set()
+                got.append(out.shape if out.ndim == 2 else (out.shape[0], 1))
+    except Undecided:
+        return set()
+    except Exception:
+        return set()
+    # name each dimension by the size expression that reproduces it at all three sizes
+    cands = {"1": lambda s: 1, "nS": lambda s: s[0], "nP": lambda s: s[1], "nE": lambda s: s[2], "nS*nS": lambda s: s[0] * s[0],
+             "nS*nP": lambda s: s[0] * s[1], "nE*nE": lambda s: s[2] * s[2], "nS*nE": lambda s: s[0] * s[2], "nP*nP": lambda s: s[1] * s[1]}
+
+    def name(k):
+        for nm, f in cands.items():
+            if all(f(sz) == g[k] for sz, g in zip(sizes, got)):
+                return 1 if nm == "1" else nm
+        return "?"
+    return {(name(0), name(1))}
+
+
 def check_shapes(repo, res, names, prop_reason):
     """R-SHAPE obligations for the registered evaluators in `names` (None = all)"""
     cls = M.sim_class(repo)
@@ -173,7 +215,9 @@ def check_shapes(repo, res, names, prop_reason):
     for r in regs:
         if names is not None and r.name not in names:
             continue
-        shp = si.returned_shapes(r.gen)
+        shp = exec_shapes(repo, r.gen.name)            # by interpretation at three model sizes
+        if not shp or any("?" in (a, b) for a, b in shp):
+            shp = si.returned_shapes(r.gen)            # fall back to the allocation sites
         tag = "add_func(%s)" % r.name
         if not shp:
             res.undecided("R-SHAPE", r.func, tag, "cannot infer the shape of what %s returns" % r.gen.qualname, node=r.call)
